@@ -23,4 +23,4 @@ ASSUMPTIONS = ["full_moon::TokenType::spaces/tabs produce exactly n spaces / tab
 
 
 def run(ctx):
-    return [r_nl.rule_nl(ctx, "C10"), r_raw.rule_raw(ctx, "C10")]
+    return [r_nl.rule_nl(ctx, "C10"), r_raw.rule_raw(ctx, "C10"), r_raw.rule_sanitiser(ctx, "C10")]
